@@ -199,13 +199,10 @@ def r3(R3, cfg, F):
     if ok:
         src = b.downcast_source(ru[0].args[2])
         ok = bool(src) and src[1] == 'Some'
-        sws = [bb for bb, t in b.terms() if t['k'] == 'switch' and not b.blocks[bb]['cleanup'] and t['discr']['k'] in ('copy', 'move') and
-               any(d[0] == 'stmt' and d[3]['rv']['k'] == 'discr' and (d[3]['rv']['place']['p'] and isinstance(d[3]['rv']['place']['p'][-1], dict) and d[3]['rv']['place']['p'][-1].get('n') == 'typ')
-                   for d in b.defs_of(t['discr']['place']['l']))]
-        ok = ok and len(sws) == 1
-        if ok:
-            some = b.variant_edge(sws[0], 1)
-            ok = ru[0].bb not in b.reachable([0], removed_edges=[(sws[0], some)])
+        # the reload runs only when the node's `typ` is Some (tested in place, or on a copy handed out by a helper)
+        g = [x for x in common.guards_of(b, ru[0].bb) if x[3][0] == 'discr' and (common.strip_refs(common.deep_path(b, x[3][1])) or [''])[-1] == 'typ'
+             and common.guard_variant(b, x) == 1]
+        ok = ok and len(g) >= 1
     R3.check(ok, cfg, b.path, 'reload-only-nodes-with-typ=Some', 'DepsGraph::reload must skip nodes whose typ is None (not reloadable)', b.loc())
 
 
@@ -321,6 +318,18 @@ def mutates_graph(F, fn):
         pl = s['place']
         if pl['p'] and isinstance(pl['p'][-1], dict) and pl['p'][-1].get('n') == 'deps' and pl['p'][-1].get('of') == P + 'HotReloadingData':
             return True
+    # a new DepsGraph method written in place: a mutating HashMap call on the graph's own map, reached through self.deps
+    for c in b.calls():
+        if c.callee and c.callee.recv_kind() == '&mut self' and re.search(r'HashMap', c.callee.best) and c.callee.name in ('insert', 'remove', 'clear', 'retain', 'entry', 'drain') and c.args:
+            cur = c.args[0]
+            for _ in range(5):
+                if 'deps' in common.strip_refs(common.deep_path(b, cur)):
+                    return True
+                r = b.call_roots(cur)
+                if len(r) == 1 and r[0].callee and r[0].callee.name in ('deref_mut', 'deref', 'as_mut', 'borrow_mut') and r[0].args:
+                    cur = r[0].args[0]
+                else:
+                    break
     for c in b.calls():
         if c.callee and c.callee.best.startswith(D + 'DepsGraph::') and c.callee.recv_kind() == '&mut self':
             t = F.body(c.callee.best)
